@@ -77,7 +77,13 @@ func (ss sizesim) Gen(prop, tier string, ts *sim.Tapes) *Case {
 			prog.Steps[i].Opts.InitialMmapSize = cfg.InitialMmapSize
 		}
 	}
-	return &Case{Prop: prop, Engine: ss.Name(), Tier: tier, Seed: ts.Seed, Run: ts.Run, Prog: prog, Tapes: map[string][]uint64{}}
+	c := &Case{Prop: prop, Engine: ss.Name(), Tier: tier, Seed: ts.Seed, Run: ts.Run, Prog: prog, Tapes: map[string][]uint64{}, Params: map[string]int{}}
+	if t.Chance(1, 5) {
+		// from the first reopening on the limit is smaller than the file (even smaller than one page): the file
+		// was already longer when opened and is simply never grown further
+		c.Params["tiny_limit"] = []int{1, 100, ps - 1, ps / 2, ps, 2*ps + 1}[t.Intn(6)]
+	}
+	return c
 }
 
 func (ss sizesim) Run(c *Case, dir string) *Outcome {
@@ -202,6 +208,11 @@ func (ss sizesim) Run(c *Case, dir string) *Outcome {
 			}
 			checkLen("after step")
 		case "reopen":
+			if tl := c.Params["tiny_limit"]; tl > 0 && int64(tl) != limit {
+				e.Cfg.MaxSize = tl
+				limit = int64(tl)
+				out.probe("limit-below-the-existing-file", 1)
+			}
 			e.RunStep(i, st)
 			setBound()
 		default:
@@ -251,5 +262,5 @@ func init() {
 	register(&Info{Prop: "C18", Engine: sizesim{}, Level: "exploration", QuickS: 45, ThoroughS: 600,
 		RealStub: "real: all of bbolt (tag verif), real file on tmpfs; observed through the I/O hooks: every ftruncate and pwrite with its offset/length, plus fstat after every step; simulated: map iteration order",
 		Rule:     "one evaluation = one seeded growing workload under a MaxSize drawn around page / allocation-chunk / power-of-two / map-step boundaries (±1, ±page) crossed with InitialMmapSize below/above the limit, AllocSize and page size; the file length is checked at every ftruncate/pwrite and after every step against max(MaxSize, length at open); a transaction that fails must fail with ErrMaxSizeReached and leave content, accounting and usability intact. distinct = distinct (final content, limit, final file size, initial map size) among workloads with at least one commit",
-		Assume:   []string{"MaxSize >= the four initial pages of a new file", "no transaction that would fit is required to succeed (the property does not promise it)"}})
+		Assume:   []string{"MaxSize >= the four initial pages of a new file (a fifth of the runs lower the limit at the first reopening below the size of the existing file, down to a single byte)", "no transaction that would fit is required to succeed (the property does not promise it)"}})
 }
